@@ -46,11 +46,14 @@ Definition guarded (a : access) : bool :=
                  (a_held a)
   end.
 
-(* ---------- recorded findings (known_findings.jsonl), by FUNCTION, never by line ---------- *)
+(* ---------- open findings (known_findings.jsonl), by FUNCTION, never by line ---------- *)
 
-(* C12-k: the function copies the map reference under RLock and uses the copy after RUnlock.
-   Only the alias USES in these functions are covered; any other unguarded site alarms. *)
-Definition c12_known_sites : list (string * N) :=
+(* Open findings whose alias uses after RUnlock are tolerated.  EMPTY: findings C12-1 (Proxy.Players),
+   C12-2 (Proxy.DisconnectAll) and C12-3 (players.Range) — map reference copied under RLock and
+   iterated after RUnlock — are repaired in /repo (`fix:` commits), so ANY unguarded site now fails the
+   obligation.  The PRE-FIX list is kept for the record below. *)
+Definition c12_known_sites : list (string * N) := [].
+Definition c12_prefix_known_sites : list (string * N) :=
   [ ("Proxy.Players", 1); ("Proxy.DisconnectAll", 2); ("players.Range", 3) ].
 
 Fixpoint lookup_known (f : string) (l : list (string * N)) : option N :=
@@ -70,8 +73,9 @@ Definition site_ok (a : access) : bool :=
 
 Definition unguarded_unknown (l : list access) : list access := filter (fun a => negb (site_ok a)) l.
 
-(* C11-2: registerConnection returns false with muP locked *)
-Definition c11_known_leaks : list (string * N) := [ ("Proxy.registerConnection", 2) ].
+(* tolerated lock leaks.  EMPTY: C11-2 (registerConnection returned false with muP locked) is repaired. *)
+Definition c11_known_leaks : list (string * N) := [].
+Definition c11_prefix_known_leaks : list (string * N) := [ ("Proxy.registerConnection", 2) ].
 Definition leak_known (l : leak) : bool :=
   match lookup_known (l_func l) c11_known_leaks with Some _ => true | None => false end.
 Definition unknown_leaks (l : list leak) : list leak := filter (fun x => negb (leak_known x)) l.
